@@ -18,13 +18,21 @@ package discovery
 // here is the batch-free run itself plus conservation: the statistics after two batches equal the statistics of the
 // whole stream (same endpoints, counts, status-code counts, min/max times), and the counts add up to the number of
 // records.
+//
+// Third test, nested convergence: five URLs in which first an inner and later an outer path segment is merged under an
+// inferred parameter (a.com/x/1/y/{1,2,3}, a.com/x/{2,3}/y/1), every stream of length <= 5 over them, every cut into
+// two batches - the same oracle as the second test.
 // Labelled bounded: never counted as proved.
 
 import (
+	"fmt"
 	"lunar/aggregation-plugin/common"
 	sharedDiscovery "lunar/shared-model/discovery"
 	"lunar/toolkit-core/urltree"
 	"math"
+	"os"
+	"sort"
+	"strings"
 	"testing"
 )
 
@@ -144,8 +152,25 @@ func TestBoundedC15BatchBoundariesDoNotMatter(t *testing.T) {
 }
 
 func TestBoundedC15BatchBoundariesWithInferredPathParameters(t *testing.T) {
-	urls := []string{"a.com/u/1", "a.com/u/2", "a.com/u/3", "a.com/u/4"}
-	statuses := []int{200, 500}
+	c15Inferred(t, []string{"a.com/u/1", "a.com/u/2", "a.com/u/3", "a.com/u/4"}, []int{200, 500}, 4, "inferred path parameters")
+}
+
+func TestBoundedC15BatchBoundariesWithNestedConvergence(t *testing.T) {
+	c15Inferred(t, []string{"a.com/x/1/y/1", "a.com/x/1/y/2", "a.com/x/1/y/3", "a.com/x/2/y/1", "a.com/x/3/y/1"}, []int{200}, 5, "nested convergence")
+}
+
+// c15Sig: the endpoint counts of a result, in a fixed order (part of the identity of a recorded known finding: the same
+// case failing with ANOTHER outcome is a different failure)
+func c15Sig(a Agg) string {
+	var parts []string
+	for ep, e := range a.Endpoints {
+		parts = append(parts, fmt.Sprintf("%s=%d", ep.URL, e.Count))
+	}
+	sort.Strings(parts)
+	return strings.Join(parts, ",")
+}
+
+func c15Inferred(t *testing.T, urls []string, statuses []int, maxLen int, label string) {
 	choices := len(urls) * len(statuses)
 	newTree := func() common.SimpleURLTreeI {
 		tree, err := common.BuildTree(sharedDiscovery.KnownEndpoints{}, 2)
@@ -154,27 +179,41 @@ func TestBoundedC15BatchBoundariesWithInferredPathParameters(t *testing.T) {
 		}
 		return tree
 	}
-	same := func(what string, a, b Agg, stream []AccessLog) {
+	same := func(a, b Agg) string {
 		if len(a.Endpoints) != len(b.Endpoints) {
-			t.Fatalf("REPLAY %s: %d endpoints after two batches, %d for the whole stream (stream %+v): %+v vs %+v", what, len(a.Endpoints), len(b.Endpoints), stream, a.Endpoints, b.Endpoints)
+			return fmt.Sprintf("%d endpoints after two batches, %d for the whole stream: %+v vs %+v", len(a.Endpoints), len(b.Endpoints), a.Endpoints, b.Endpoints)
 		}
 		for ep, x := range a.Endpoints {
 			y, ok := b.Endpoints[ep]
 			if !ok {
-				t.Fatalf("REPLAY %s: endpoint %+v exists after two batches only (stream %+v)", what, ep, stream)
+				return fmt.Sprintf("endpoint %+v exists after two batches only", ep)
 			}
 			if x.Count != y.Count || x.MinTime != y.MinTime || x.MaxTime != y.MaxTime || len(x.StatusCodes) != len(y.StatusCodes) {
-				t.Fatalf("REPLAY %s: endpoint %+v differs: %+v after two batches, %+v for the whole stream (stream %+v)", what, ep, x, y, stream)
+				return fmt.Sprintf("endpoint %+v differs: %+v after two batches, %+v for the whole stream", ep, x, y)
 			}
 			for code, c := range x.StatusCodes {
 				if y.StatusCodes[code] != c {
-					t.Fatalf("REPLAY %s: endpoint %+v status %d: %d after two batches, %d for the whole stream (stream %+v)", what, ep, code, c, y.StatusCodes[code], stream)
+					return fmt.Sprintf("endpoint %+v status %d: %d after two batches, %d for the whole stream", ep, code, c, y.StatusCodes[code])
+				}
+			}
+		}
+		return ""
+	}
+	// known findings (recorded defects of the code under test, identified by the failing case): listed in the file named by
+	// VERIF_KNOWN_CASES, one "<label>|<url indices>|<cut>|<outcome of two batches><><outcome of one batch>" per line; a failing case that is not listed fails the test
+	known := map[string]bool{}
+	if p := os.Getenv("VERIF_KNOWN_CASES"); p != "" {
+		if data, err := os.ReadFile(p); err == nil {
+			for _, l := range strings.Split(string(data), "\n") {
+				if l = strings.TrimSpace(l); l != "" && !strings.HasPrefix(l, "#") {
+					known[l] = true
 				}
 			}
 		}
 	}
+	knownHit, unknownFail := 0, 0
 	checked := 0
-	for n := 1; n <= 4; n++ {
+	for n := 1; n <= maxLen; n++ {
 		total := 1
 		for i := 0; i < n; i++ {
 			total *= choices
@@ -218,11 +257,36 @@ func TestBoundedC15BatchBoundariesWithInferredPathParameters(t *testing.T) {
 				if err != nil {
 					t.Fatalf("REPLAY second batch: %v", err)
 				}
-				same("inferred path parameters", both, once, stream)
+				if why := same(both, once); why != "" {
+					id := label + "|"
+					cc := code
+					for i := 0; i < n; i++ {
+						id += fmt.Sprintf("%d", cc%choices)
+						cc /= choices
+					}
+					id += fmt.Sprintf("|%d|%s<>%s", cut, c15Sig(both), c15Sig(once))
+					if known[id] {
+						knownHit++
+					} else {
+						unknownFail++
+						if unknownFail <= 5 {
+							t.Errorf("REPLAY %s (case %s): %s (stream %+v)", label, id, why, stream)
+						}
+						if os.Getenv("VERIF_LIST_CASES") != "" {
+							fmt.Println("CASE " + id)
+						}
+					}
+				}
 				checked++
 			}
 			checked++
 		}
 	}
-	t.Logf("REPLAY bounded: %d (stream, batching) cases with inferred path parameters checked", checked)
+	if unknownFail > 0 {
+		t.Fatalf("REPLAY %s: %d failing (stream, batching) cases that are not recorded as known findings", label, unknownFail)
+	}
+	if knownHit > 0 {
+		t.Logf("REPLAY KNOWN-FINDING %s: %d (stream, batching) cases fail as recorded", label, knownHit)
+	}
+	t.Logf("REPLAY bounded: %d (stream, batching) cases with %s checked", checked, label)
 }
